@@ -5,7 +5,7 @@ LEVEL = "proof"
 RULE = ('tagged PretextView-model maps (painted scaffolds incl. equal sizes, 0..k unlocs and haplotigs, sex/B tags, one or two haplotypes) x input assemblies. Non-trivial = distinct (kind, #pieces, #autosomes, #unlocs, #haplotigs | error).')
 TRUSTED = ['correspondence harness props/C10.py + remap_lib.py: real BuildAssembly pipeline vs Lean `remap` on the projection `proj_names`', 'modelled not verified: Python dict/set/sort semantics as in Model/Py.lean; object identity by object ids; PretextView edit-script model (spec side)']
 ASSUMPTIONS = ['input names outside the generated <prefix>.., H_.., Scaffold_.. namespaces (generator)', 'consistent tagging as generated']
-LEVEL_NOTE = 'counters, rename_by_size, csv proved; single-haplotype group numbering being added; two-haplotype grouping is oracle-side'
+LEVEL_NOTE = 'proved over the model: counters (H_n, _unloc_n without holes), rename_by_size, chromosome csv, and for single-haplotype maps the whole numbering/uniqueness/order chain (G1–G5: `numbering_single`, `names_unique_autosomes`, `output_order`, `unloc_directly_after`); several-haplotype grouping theorems in progress (Properties/C10Multi.lean when registered) and otherwise decided by correspondence on names/ranks/order/csv + the direct oracle (`twohap` stream)'
 EXPLANATION = 'naming theorems (counters, rename_by_size, ChrNamer single-haplotype) over the model; tie by correspondence on names/ranks/order/csv; oracle = direct statement.'
 PROJ = R.proj_names
 
